@@ -20,4 +20,8 @@ BulkExp(B(_), flen, n, m) ==
                  LET off == BulkOff(k - 1, m) size == BulkSize(k - 1, m)
                  IN IF off + size <= flen THEN <<acc[1] + 1, (acc[2] + SumR(B, off, size)) % 65521>> ELSE acc,
              <<0, 0>>, [k \in 1..n |-> k])
+
+\* the long-range variant (every range size0 bytes longer, no checksum): how many of the n reads fit in the file
+BulkNok(flen, n, m, size0) ==
+    FoldLeft(LAMBDA acc, k : IF BulkOff(k - 1, m) + size0 + BulkSize(k - 1, m) <= flen THEN acc + 1 ELSE acc, 0, [k \in 1..n |-> k])
 =============================================================================
